@@ -1251,8 +1251,8 @@ function cbuiltins.operators.tdiv(context, node, emitter, lattr, rattr, lname, r
   if ltype.is_float or rtype.is_float then
     emitter:add(context:ensure_cmath_func('trunc', type), '(', lname, ' / ', rname, ')')
   elseif ltype.is_integral and rtype.is_integral and ltype.is_unsigned ~= rtype.is_unsigned then
-    -- C would perform the division unsigned
-    emitter:add('((', type, ')', lname, ' / (', type, ')', rname, ')')
+    -- C would perform the division unsigned; the cast back reduces a result computed in `int`
+    emitter:add('((', type, ')((', type, ')', lname, ' / (', type, ')', rname, '))')
   else
     operator_binary_op('/', context, node, emitter, lattr, rattr, lname, rname)
   end
@@ -1280,7 +1280,7 @@ function cbuiltins.operators.tmod(context, node, emitter, lattr, rattr, lname, r
   if ltype.is_float or rtype.is_float then
     emitter:add(context:ensure_cmath_func('fmod', type), '(', lname, ', ', rname, ')')
   elseif ltype.is_integral and rtype.is_integral and ltype.is_unsigned ~= rtype.is_unsigned then
-    emitter:add('((', type, ')', lname, ' % (', type, ')', rname, ')')
+    emitter:add('((', type, ')((', type, ')', lname, ' % (', type, ')', rname, '))')
   else
     operator_binary_op('%', context, node, emitter, lattr, rattr, lname, rname)
   end
